@@ -118,6 +118,7 @@ type Machine struct {
 	logMsgs    []string
 	ptrOrigin  map[*Value][]Value
 	known      map[int32]bool
+	pinned     map[int32]uint64 // terms already concretised on this path (replay-safe: no decision, no prefix entry)
 	timersCreated int
 	tlsReads, tlsWrites int
 	initSteps  int64
@@ -342,7 +343,7 @@ func (m *Machine) check(c *Term, label, msg string) {
 	}
 	neg := m.ts.Not(c)
 	res, model := m.solver.Check(neg)
-	if res == Unsat && m.xsolv != nil {
+	if res == Unsat && m.xsolv != nil && !m.ex.cfg.NoCross {
 		// cross-check the final obligation with a second solver
 		r2 := m.crossCheck(neg)
 		if r2 == Sat {
@@ -434,6 +435,7 @@ type ExploreConfig struct {
 	QueryTimeout int // ms
 	CrossCheck   string
 	IntSolver    bool
+	NoCross      bool
 	Deadline     time.Time
 }
 
@@ -800,6 +802,7 @@ func (m *Machine) runPath(w WorkItem) (res *PathResult) {
 	m.ndvals = m.ndvals[:0]
 	m.pathConds = m.pathConds[:0]
 	m.known = map[int32]bool{}
+	m.pinned = map[int32]uint64{}
 	m.steps = 0
 	m.uncaughtPanic = nil
 	m.hostState = map[string]interface{}{}
@@ -847,6 +850,9 @@ func (m *Machine) runPath(w WorkItem) (res *PathResult) {
 				m.pathOutcome("panic", msg)
 				m.panicViolation(msg)
 			case engineError:
+				// where: innermost frames of the goroutine that hit it (the deferred reset of
+				// G.top runs during unwinding, so the stack is captured by the panic site's
+				// caller chain recorded in lastStack)
 				m.pathOutcome("unsupported", r.msg)
 			case hostCrash:
 				m.pathOutcome("engine-crash", r.msg)
